@@ -13,7 +13,7 @@ Line-protocol driver for C12.
 
 Frame tokens (prefix form): E <ending> | S k v F | T k v F | L n tag F | D addr
   | C id kind target value F F | N id two salt value F F | A id auth nonce target value F F
-  | K amount F | U amount F | V F
+  | K amount F | U amount F | V F | Q addr F   (STAKE / UNSTAKE amount in whole RPG, UNSTAKEALL, STAKENUM)
 Anything unparsable answers `bad-op`.
 -/
 namespace Rangers.Drive.C12
@@ -95,6 +95,7 @@ partial def parseFrame : List String → Option (Frame × List String)
   | "K" :: a :: r => do let a ← a.toNat?; let (f, r) ← parseFrame r; pure (.stake a f, r)
   | "U" :: a :: r => do let a ← a.toNat?; let (f, r) ← parseFrame r; pure (.unstake a f, r)
   | "V" :: r => do let (f, r) ← parseFrame r; pure (.unstakeall f, r)
+  | "Q" :: a :: r => do let a ← parseAddr a; let (f, r) ← parseFrame r; pure (.stakenum a f, r)
   | _ => none
 
 def parseBool : String → Option Bool
@@ -110,7 +111,10 @@ partial def parseAccounts (st : St) : List String → Option St
     match kind with
     | "e" => parseAccounts { st with w := w } r
     | "h" => parseAccounts { st with w := w.setCode a .hosted } r
-    | "m" => parseAccounts { st with w := w.setCode a .hosted, miners := a :: st.miners } r
+    | "m" =>
+      -- a contract registered as validator miner account: stake 400 (ValidatorStake), `b` is the balance left
+      let w1 := w.setCode a .hosted
+      parseAccounts { st with w := { w1 with stake := w1.stake.set a 400 }, miners := a :: st.miners } r
     | "p" => parseAccounts { st with w := w, pre := a :: st.pre } r
     | _ => none
   | _ => none
@@ -123,6 +127,11 @@ def traceStr (tr : List Event) : String :=
   joinWith "," (tr.map (fun e => toString e.id ++ (if e.ok then "+" else "-") ++ e.world.digest))
 
 def logsStr (ls : List Log) : String := joinWith ";" (ls.map Log.name)
+
+/-- what a receipt of the real block loop shows: error class, the result JSON's log list (successful
+    transactions only), `receipt.Logs` -/
+def receiptStr (rc : Receipt) : String :=
+  errName rc.err ++ " R[" ++ (if rc.err.isNone then logsStr rc.returned else "?") ++ "] G[" ++ logsStr rc.logs ++ "]"
 
 def finishCfg (st : St) : St :=
   let pre := st.pre
@@ -153,6 +162,20 @@ def step (st : St) (line : String) : St × String :=
       ({ st with w := w, idx := st.idx + 1 },
         errName rc.err ++ " E[" ++ traceStr rc.trace ++ "] R[" ++ logsStr rc.returned ++ "] G[" ++ logsStr rc.logs ++ "] " ++ w.dump)
     | _, _, _, _ => (st, "bad-op")
+  | "rtx" :: h :: origin :: "call" :: tgt :: v :: toks =>
+    -- one transaction of a block run by the unmodified VMExecutor.Execute: same model step, the answer is the receipt
+    match h.toNat?, parseAddr origin, parseAddr tgt, v.toNat?, parseFrame toks with
+    | some h, some o, some t, some v, some (f, []) =>
+      let (w, rc) := execTx st.cfg restore st.idx st.w { hash := h, origin := o, kind := .call t, value := v, body := f }
+      ({ st with w := w, idx := st.idx + 1 }, receiptStr rc)
+    | _, _, _, _, _ => (st, "bad-op")
+  | "rtx" :: h :: origin :: "create" :: v :: toks =>
+    match h.toNat?, parseAddr origin, v.toNat?, parseFrame toks with
+    | some h, some o, some v, some (f, []) =>
+      let (w, rc) := execTx st.cfg restore st.idx st.w { hash := h, origin := o, kind := .create, value := v, body := f }
+      ({ st with w := w, idx := st.idx + 1 }, receiptStr rc)
+    | _, _, _, _ => (st, "bad-op")
+  | ["rend"] => (st, st.w.dumpScratch)
   | ["dump"] => (st, st.w.dump)
   | _ => (st, "bad-op")
 
